@@ -3,7 +3,7 @@
 EXTENDS ByteStream, Json, IOUtils
 VARIABLES l, st, skip, nbad
 T == ndJsonDeserialize(IOEnv.TRACE)
-HasC(ev) == ev.op \in {"pair", "send", "write", "onWrite", "onRead", "onClosed", "suspend", "resume", "remove", "psend", "pclose", "pread", "check"}
+HasC(ev) == ev.op \in {"pair", "onAccepted", "onConnected", "send", "write", "onWrite", "onRead", "onClosed", "suspend", "resume", "remove", "psend", "pclose", "pread", "check"}
 TInit == l = 1 /\ st = Init0 /\ skip = FALSE /\ nbad = 0
 TStep ==
   /\ l <= Len(T) /\ l' = l + 1
